@@ -328,3 +328,11 @@ Theorem c20_mon_all_sound : forall tr s os, run (init true) tr = Some (s, os) ->
   mon_all (env_of tr) os = true /\ mon_all (filter not_closing (env_of tr)) os = true.
 Proof. exact mon_all_sound. Qed.
 Print Assumptions c20_mon_all_sound.
+
+(* (e) when OReturn is observed newService has been called once for every Accept label, and the Assigner of each of
+   these instances has been called: Loop waits for the goroutine of every connection it accepted *)
+From JV Require Import LoopMonServed.
+Theorem c20_mon_return_served_sound : forall tr s os, run (init true) tr = Some (s, os) ->
+  mon_return_served (env_of tr) os = true.
+Proof. exact mon_return_served_sound. Qed.
+Print Assumptions c20_mon_return_served_sound.
